@@ -356,6 +356,7 @@ func (l *labelsGetter) getFetchRequest(fingerprints map[uint64]bool) sql.ISelect
 		From(sql.NewRawObject(tableName)).
 		AndWhere(
 			sql.NewIn(sql.NewRawObject("fingerprint"), fps...),
+			sql.NewIn(sql.NewRawObject("type"), sql.NewIntVal(2), sql.NewIntVal(0)),
 			sql.Ge(sql.NewRawObject("date"), sql.NewStringVal(FormatFromDate(l.DateFrom))),
 			sql.Le(sql.NewRawObject("date"), sql.NewStringVal(l.DateTo.UTC().Format("2006-01-02"))))
 	return req
